@@ -27,6 +27,8 @@ ASSUMPTIONS = [
     "for non-components, which conflicts with C17's 'any mapping')",
 ]
 
+HISTORY_CHECK = True   # last runs of every chunk are re-observed alone in a fresh interpreter
+
 TIERS = {
     "quick":    {"runs": 320000, "chunk": 10000, "hash_seeds": [0], "max_ops": 25, "timeout": 900},
     "thorough": {"runs": 3200000, "chunk": 50000, "max_wall": 2400, "hash_seeds": [0], "max_ops": 40, "timeout": 3000},
